@@ -187,7 +187,7 @@ impl Monitor for C04 {
             return;
         }
         let k = k - 1;
-        let max_plain = self.tier.pick(40_000, 300_000);
+        let max_plain = self.tier.pick(150_000, 400_000);
         if k < self.n_streams {
             let mut r = Rng::derive(self.seed, 0x0401, k, 0);
             let (label, d) = match k % 20 {
